@@ -31,8 +31,8 @@
 (* graph is a tree, every state is one case -- and check MatchesIffGlob,   *)
 (* BadEscapeRaises, LastWins and RefSanity in every state.                 *)
 (*                                                                         *)
-(* Configurations: MC_Glob_quick (2 patterns x 2 symbols, names <= 2, 6    *)
-(* symbols, 81 356 states), MC_Glob_bnd_a (1 x 3, names <= 4, 2 738 385),  *)
+(* Configurations: MC_Glob_quick (2 patterns x 2 symbols, names <= 2, 5    *)
+(* symbols, 30 752 states), MC_Glob_bnd_a (1 x 3, names <= 4, 2 738 385),  *)
 (* MC_Glob_bnd_b (2 x 2, names <= 3, 3 160 170), MC_Glob_bnd_c (2 x 3,     *)
 (* names <= 3 over {a,*,?,\}, 621 350), MC_Glob_doc_quick / _doc           *)
 (* (<= 3 paragraphs: LastWins; 22 587 / 1 630 k states), MC_Glob_emit and  *)
